@@ -311,6 +311,33 @@ EXTRA = {
  "C09": dict(text=" Function-level building block Verif.Props.TokenRules: H1 (mdX_fix_removes_trigger) and mdX_fix_idempotent for eight token fixers, proved false for MD038 (md038_fix_keeps_trigger); H2 as the 28-pair inertness table with counter-examples md001_md019_interference, md029_md030_interference; bundleA/B_fix_removes_triggers (joint level-1 pass). Tie: real rule classes through a real PluginManager on real and synthetic token streams (1.3 M comparisons thorough)."),
 }
 
+# Round-4 building blocks (sentences appended to level_claimed.text, one list entry per block and property).
+INLINELOOP = (" Verif.Props.InlineLoop (faithful model of the inline dispatcher InlineProcessor.__process_inline_text_block with the text-block and line-end helpers; "
+              "loop theorems hold for EVERY handler table meeting the contract RespOK, and real_table_meets_contract_partial shows the modelled recognisers meet it): ")
+SCANRULES = (" Verif.Props.ScanRules (faithful per-token state machines of MD003 MD022 MD024 MD025 MD026 MD036 MD040 MD041 MD042 MD045, real rule classes driven through a real "
+             "PluginManager: 2.4 M comparisons thorough, 347 of 347 rule lines reached): ")
+EXTRA2 = {
+ "C01": [INLINELOOP + "inline_loop_terminates (turns <= number of inline start characters; fuel always sufficient), inline_loop_total (under the guard envOK and the contract the only "
+         "errors are a handler's own; six excluded-point witnesses, one per contract clause, each replayed on the real loop with a stub registered in the real handler table). Tie: real loop "
+         "vs model on all strings <= 5 over the inline alphabet x 9 environments (1.69 M cases thorough) and every one of 5.2 M recorded loop turns of real parses is a legal model transition."],
+ "C02": [INLINELOOP + "inline_loop_conservation (text pieces and handler-consumed ranges tile the paragraph text exactly; nothing handled twice), inline_loop_content_partial "
+         "(what the text tokens hold through Codec.encode, one-line texts)."],
+ "C04": [INLINELOOP + "inline_loop_order (the inline token list only grows at its end; no two adjacent plain text tokens), real_table_order."],
+ "C05": [INLINELOOP + "inline_loop_positions_partial and loop_tokens_positions (line/column at every turn, the position handed to each handler and the one used for text tokens = the true "
+         "position), with the full statement PROVED FALSE for the code by positions_excluded_multiline / positions_excluded_setext — the root causes of the known family F-C05-INLINECOL "
+         "(an element spanning a line break does not advance the paragraph's per-line indentation index; setext heading after a hard break counts the indentation twice; the code-span "
+         "column delta ignores the paragraph's leading white space)."],
+ "C06": [SCANRULES + "mdX_scan_iff (reports <=> a sentence-shaped condition over the stream; unconditional for MD003 MD022 MD025 MD040 MD042 MD045, under a guard every parsed stream "
+         "satisfies for MD024 MD026 MD036 MD041, 8 excluded-point witnesses), mdX_faithful_eq_spec against Verif.Model.RuleSpec (full: MD003 MD024 MD025 MD040; _partial with proved "
+         "witnesses md045_differs (U+000B), md042_differs (U+00A0), md041_h1_differs (<H1>), md024_text_differs, md022_count_unknown_after_list)."],
+ "C07": [SCANRULES + "mdX_reports_in_range for all ten (every report's (line, column) is the position, or for a SetExt heading the original position, of a token of the stream of the named "
+         "kind; md026_delta_bounds for MD026's computed deltas)."],
+ "C12": [SCANRULES + "allTen_projection (in the joint pass each rule's share of the report list is exactly what it reports alone, same order), mdX_scan_reads (the verdict depends only on the "
+         "named token kinds / fields)."],
+ "C13": [SCANRULES + "mdX_state_reset: scanAfter rule cfg A B = scan rule cfg B for ALL streams A, B (nine rules assign every field in starting_new_file; MD022 leaves "
+         "__start_heading_blank_line_count unassigned: proved harmless, with an example that the start states really differ); 71 k two-file sequences on one PluginManager vs fresh objects."],
+}
+
 def main():
     checks = []
     for pid in ALL:
@@ -319,6 +346,8 @@ def main():
         c = dict(CHECKS[pid])
         for k, v in EXTRA.get(pid, {}).items():
             c[k] = c[k] + v
+        for v in EXTRA2.get(pid, []):
+            c["text"] = c["text"] + v
         checks.append({
             "property_id": pid,
             "quick_cmd": f"./check {pid} --tier quick",
